@@ -225,7 +225,7 @@ func getServer(t string, limit int) (*srv, error) {
 		if err != nil {
 			return nil, err
 		}
-		server := &fasthttp.Server{MaxRequestBodySize: 64 << 20}
+		server := &fasthttp.Server{MaxRequestBodySize: 64 << 20, Logger: quietLogger{}}
 		if err := s.service.Bind(server); err != nil {
 			return nil, err
 		}
@@ -239,6 +239,10 @@ func getServer(t string, limit int) (*srv, error) {
 	servers[key] = s
 	return s, nil
 }
+
+type quietLogger struct{}
+
+func (quietLogger) Printf(format string, args ...interface{}) {}
 
 // ---------------------------------------------------------------- bodies
 
@@ -474,7 +478,12 @@ func opRawUDP(c *c13Case, o *c13Obs) {
 	ua, _ := net.ResolveUDPAddr("udp", s.addr)
 	dgram := append(unhex(c.Hdr), body...)
 	buf := make([]byte, 70000)
-	for try := 1; try <= 3; try++ {
+	tries, wait := 3, 1500*time.Millisecond
+	if c.Decl == "smaller" || c.Decl == "larger" {
+		// no answer is the expected fate of a datagram whose header lies: do not sit through retries
+		tries, wait = 1, 300*time.Millisecond
+	}
+	for try := 1; try <= tries; try++ {
 		o.Tries = try
 		conn, err := net.DialUDP("udp", nil, ua)
 		if err != nil {
@@ -487,7 +496,7 @@ func opRawUDP(c *c13Case, o *c13Obs) {
 			o.Env = "udp write: " + err.Error()
 			return
 		}
-		conn.SetReadDeadline(time.Now().Add(1500 * time.Millisecond))
+		conn.SetReadDeadline(time.Now().Add(wait))
 		n, err := conn.Read(buf)
 		conn.Close()
 		time.Sleep(2 * time.Millisecond)
@@ -690,8 +699,11 @@ func opSites(c *c13Case, o *c13Obs) {
 				case *ast.BinaryExpr:
 					switch x.Op {
 					case token.GTR, token.GEQ, token.LSS, token.LEQ, token.EQL, token.NEQ:
-						if strings.Contains(exprText(fset, x.X), "MaxRequestLength") ||
-							strings.Contains(exprText(fset, x.Y), "MaxRequestLength") {
+						l, r := exprText(fset, x.X), exprText(fset, x.Y)
+						if strings.Contains(l, "MaxRequestLength") || strings.Contains(r, "MaxRequestLength") {
+							cmps = append(cmps, x)
+						} else if f == "rpc/udp/handler.go" && ((l == "length" && r == "n-8") || (l == "n-8" && r == "length")) {
+							// the datagram consistency test: declared length against received bytes
 							cmps = append(cmps, x)
 						}
 					}
